@@ -345,6 +345,20 @@ impl Scorer {
     }
 }
 
+#[cfg(feature = "verif")]
+pub(crate) fn verif_scorer_eval(entries: &[(u32, u32, i32)], keys1: &[u32], keys2: &[u32]) -> i32 {
+    let mut builder = ScorerBuilder::new();
+    for &(k1, k2, c) in entries {
+        builder.insert(U31::new(k1).unwrap(), U31::new(k2).unwrap(), c);
+    }
+    let scorer = builder.build();
+    let conv = |ks: &[u32]| -> Vec<U31> { ks.iter().map(|&k| U31::new(k).unwrap()).collect() };
+    scorer.accumulate_cost(
+        &U31x8::to_simd_vec(&conv(keys1)),
+        &U31x8::to_simd_vec(&conv(keys2)),
+    )
+}
+
 #[cfg(test)]
 mod tests {
     use super::*;
